@@ -46,6 +46,23 @@ ASSUMPTIONS = [
 ]
 
 
+class Ser04(Ser):
+    """`VectorSum(vector)` with a VectorExpression / MatrixVectorProduct operand (direct constructor) has no
+    constructor in the Lean syntax (`vecSum` holds a VectorVariable): it is lowered to the LinearCombination
+    with unit coefficients over the same operand — the same denotation, and `_compute_degree_impl` classifies
+    both by the same element loop (a change of either branch shows up as a mismatch)."""
+
+    def node(self, e):
+        from optyx.core import vectors as V
+
+        if isinstance(e, V.VectorSum) and not isinstance(e.vector, V.VectorVariable):
+            if not hasattr(e.vector, "_expressions"):
+                raise Unsupported(f"VectorSum over {type(e.vector).__name__}")
+            k = len(e.vector._expressions)
+            return "(lc (" + " ".join(["1"] * k) + ") " + self.vec(e.vector) + ")"
+        return super().node(e)
+
+
 def run_lean_unit(lines):
     return core.run_lean(lines)
 
@@ -173,7 +190,25 @@ def var_names(e):
         elif isinstance(n, Constant):
             pass
         else:
-            names |= {v.name for v in n.get_variables()}
+            # vector / matrix nodes: walk the operands ourselves (some node × operand combinations, e.g. VectorSum
+            # over a vector expression, evaluate and classify fine but have no working get_variables())
+            found = False
+            for attr in ("vector", "left", "right", "expression", "matrix"):
+                sub = getattr(n, attr, None)
+                if sub is None or isinstance(sub, np.ndarray):
+                    continue
+                if hasattr(sub, "_expressions"):
+                    found = True
+                    ex = sub._expressions
+                    for x in ex:
+                        stack.extend(x if isinstance(x, (list, tuple)) else [x])
+                elif hasattr(sub, "_variables"):
+                    found = True
+                    for x in sub._variables:
+                        for v in (x if isinstance(x, (list, tuple)) else [x]):
+                            names.add(v.name)
+            if not found:
+                names |= {v.name for v in n.get_variables()}
     return sorted(names)
 
 
@@ -218,11 +253,22 @@ def numeric_degree_oracle(e, d, rng, why):
     for _ in range(6):
         base = {n: rng.randint(-8, 8) / 8 + 1 / 16 for n in names}
         dirn = {n: rng.choice([-1.0, -0.5, 0.5, 1.0, 0.25]) for n in names}
+        pts = [{n: base[n] + j * 0.5 * dirn[n] for n in names} for j in range(d + 2)]
         try:
-            vals = [float(oracle.prim(oracle.ref_eval(e, {n: base[n] + j * 0.5 * dirn[n] for n in names})))
-                    for j in range(d + 2)]
+            vals = [float(oracle.prim(oracle.ref_eval(e, pt))) for pt in pts]
         except (oracle.NotRegular, OverflowError, ZeroDivisionError, ValueError):
             continue
+        except (AttributeError, TypeError):
+            # a node form the shared reference interpreter does not know (e.g. VectorSum over a vector
+            # expression): evaluate through the expression's own evaluate()
+            try:
+                with warnings.catch_warnings(), np.errstate(all="ignore"):
+                    warnings.simplefilter("ignore")
+                    vals = [float(np.asarray(e.evaluate(pt))) for pt in pts]
+            except Exception:  # noqa: BLE001
+                continue
+            if not all(math.isfinite(v) for v in vals):
+                continue
         tried += 1
         scale = max(1.0, max(abs(v) for v in vals)) * (2 ** (d + 1))
         if abs(binom_diff(vals)) > 1e-7 * scale:
@@ -479,6 +525,122 @@ def cell_cover(rng):
     return out
 
 
+def vector_likes(U):
+    """(name, maker) of every kind of vector-like object the API produces, length n: VectorVariable and its
+    views, matrix rows / columns / diagonals, VectorExpressions of every element class (linear, constant,
+    quadratic, bilinear, rational, transcendental, parametric, mixed)"""
+    from optyx.core.expressions import Constant
+    from optyx.core import vectors as V
+    from optyx.core.functions import sin, exp
+
+    n = U.n
+    x, y, w = U.x, U.y, U.w
+    out = [("x", lambda: x), ("x[::-1]", lambda: x[::-1]), ("w[1:n+1]", lambda: w[1:n + 1]), ("w[0:2n:2]", lambda: w[0:2 * n:2][:n] if len(w[0:2 * n:2]) >= n else w[0:n])]
+    if U.M.rows >= n or True:
+        out += [("Mrow", lambda: U.M[0, :]), ("Mcol", lambda: U.M[:, 1]), ("Mdiag", lambda: U.M.diagonal()), ("Srow", lambda: U.S[1, :])]
+    out += [
+        ("x+1", lambda: x + 1.0), ("x-y", lambda: x - y), ("2x", lambda: 2.0 * x), ("-x", lambda: -x), ("x/2", lambda: x / 2.0),
+        ("1-x", lambda: 1.0 - x), ("(x-1)**2", lambda: (x - 1.0) ** 2), ("(x+y)**3", lambda: (x + y) ** 3), ("(x+1)**1", lambda: (x + 1.0) ** 1),
+        ("(x+1)**0", lambda: (x + 1.0) ** 0), ("(x+1)**0.5", lambda: (x + 1.0) ** 0.5), ("x*y", lambda: x * y), ("1/x", lambda: 1.0 / x),
+        ("x/y", lambda: x / y), ("sin(x+1)", lambda: sin(x + 1.0)), ("exp(2x)", lambda: exp(2.0 * x)),
+        ("consts", lambda: V.VectorExpression([Constant(float(i) - 0.5) for i in range(n)])),
+        ("mixed", lambda: V.VectorExpression(([x[0], Constant(1.0), x[1] ** 3, x[0] * 2.0 + y[0]] * n)[:n])),
+        ("onebad", lambda: V.VectorExpression(([x[0], x[1] + 1.0] * n)[:n - 1] + [sin(x[0])])),
+        ("param", lambda: V.VectorExpression([U.params[0] * v for v in x])),
+    ]
+    return [(nm, mk) for nm, mk in out if _builds(mk) and _len(mk) == n]
+
+
+def _builds(mk):
+    try:
+        with warnings.catch_warnings():
+            warnings.simplefilter("ignore")
+            mk()
+        return True
+    except Exception:  # noqa: BLE001
+        return False
+
+
+def _len(mk):
+    try:
+        return len(mk())
+    except Exception:  # noqa: BLE001
+        return None
+
+
+def _positions(U, mk, L, x0):
+    """every vector-operand position for the vector-like maker `mk` of length L"""
+    from optyx.core.expressions import BinaryOp, Constant
+    from optyx.core import vectors as V
+    from optyx.core import matrices as M
+
+    cL = np.array(([2.0, -1.0, 0.5, 3.0] * L)[:L])
+    QL = np.array([[(i + 1.0) * (j - 1.0) + (0.5 if i == j else 0.0) for j in range(L)] for i in range(L)])
+    xL = U.y[0:L] if L <= len(U.y) else U.w[0:L]
+    return [
+        ("LC", lambda: V.LinearCombination(cL, mk())), ("c@v", lambda: cL @ mk()),
+        ("v@c", lambda: mk() @ cL), ("DotSelf", lambda: (lambda t: V.DotProduct(t, t))(mk())),
+        ("Dot(v,v')", lambda: V.DotProduct(mk(), mk())), ("Dot(v,x)", lambda: V.DotProduct(mk(), xL)),
+        ("Dot(x,v)", lambda: V.DotProduct(xL, mk())), ("x.dot(v)", lambda: xL.dot(mk())),
+        ("v.dot(x)", lambda: mk().dot(xL)), ("v@x", lambda: mk() @ xL), ("QF", lambda: M.QuadraticForm(mk(), QL)),
+        ("VectorSum", lambda: V.VectorSum(mk())), (".sum()", lambda: mk().sum()),
+        ("vector_sum", lambda: V.vector_sum(mk())), ("L2", lambda: V.L2Norm(mk())), ("L1", lambda: V.L1Norm(mk())),
+        ("elem0", lambda: mk()[0]), ("elemLast", lambda: mk()[L - 1]),
+        ("2*LC+x", lambda: 2.0 * V.LinearCombination(cL, mk()) + x0),
+        ("QF**2", lambda: BinaryOp(M.QuadraticForm(mk(), QL), Constant(2), "**")),
+        ("-Dot/2", lambda: -(V.DotProduct(mk(), xL)) / 2.0),
+    ]
+
+
+def vector_operand_cover(rng):
+    """every kind of vector-like object (bare, and wrapped in one / two MatrixVectorProducts of different
+    shapes) in every vector-operand position of every vector node, alone and inside scalar arithmetic /
+    deep chains (delegation from the explicit-stack traversal)"""
+    from optyx.core.expressions import BinaryOp, Constant
+    from optyx.core import vectors as V
+    from optyx.core import matrices as M
+
+    U = gen.Universe(rng)
+    n = U.n
+    An = np.array([[(i + 1.0) - 0.5 * j for j in range(n)] for i in range(n)])
+    Bn = np.array([[1.0 if i == j else (0.5 if j == i + 1 else 0.0) for j in range(n)] for i in range(n)])
+    A2 = np.array([[1.0 + j for j in range(n)], [2.0 - j for j in range(n)]])
+    A1 = np.array([[2.0] + [0.0] * (n - 1)])
+    wrappers = [
+        ("", lambda mk: mk),
+        ("A@", lambda mk: (lambda: M.matmul(An, mk()))),
+        ("A2@", lambda mk: (lambda: M.matmul(A2, mk()))),
+        ("A1@", lambda mk: (lambda: M.matmul(A1, mk()))),
+        ("B@A@", lambda mk: (lambda: M.matmul(Bn, M.matmul(An, mk())))),
+        ("A2@B@", lambda mk: (lambda: M.matmul(A2, M.matmul(Bn, mk())))),
+        ("ndarray@", lambda mk: (lambda: An @ mk())),
+    ]
+    out = []
+    x0 = U.scalars[0]
+    for nm, mk0 in vector_likes(U):
+        for wn, wrap in wrappers:
+            mk = wrap(mk0)
+            if wn and not _builds(mk):
+                continue  # e.g. `ndarray @ VectorExpression` is not an API form
+            L = _len(mk)
+            if not L:
+                continue
+            positions = _positions(U, mk, L, x0)
+            for pn, pm in positions:
+                if _builds(pm):
+                    out.append((f"vecop:{pn}:{wn}{nm}", pm))
+    # delegation from the explicit-stack loop: vector nodes at the far end of deep chains
+    some = [c for c in out if c[0].split(":")[1] in ("LC", "QF", "Dot(x,v)", "VectorSum") and ("A@" in c[0] or "A2@" in c[0])]
+    for tag, pm in some[:: max(1, len(some) // 40)]:
+        def deep(pm=pm, d=rng.choice([399, 400, 401, 450])):
+            e = pm()
+            for i in range(d):
+                e = BinaryOp(e, Constant(float(i % 2)), "+") if i % 3 else BinaryOp(x0, e, "-")
+            return e
+        out.append(("chainvec:450:" + tag.split(":", 1)[1], deep))
+    return out
+
+
 def chain_cases(rng, thorough):
     """deep chains around the 400 switch and the 500 cut-off of the depth estimate"""
     from optyx.core.expressions import BinaryOp, Constant, UnaryOp
@@ -565,15 +727,25 @@ def rand_poly(rng, U, depth):
     if r < 0.22:
         kind = rng.choice(["lc", "lc", "vs", "dot", "qf", "ps", "es", "msv", "us", "l2"])
 
-        def vec():
+        def vec0():
             q = rng.random()
-            if q < 0.5:
+            if q < 0.45:
                 return rng.choice(U.vec_views())
+            if q < 0.6:
+                v = rng.choice(U.vec_views())
+                return rng.choice([lambda: v + gen.const(rng), lambda: (v - 1.0) ** rng.choice([1, 2, 3, 0.5]), lambda: 1.0 / v,
+                                   lambda: v * rng.choice(U.vec_views()), lambda: -v, lambda: v - rng.choice(U.vec_views())])()
             return V.VectorExpression([rand_poly(rng, U, depth - 2) for _ in range(n)])
+
+        def vec():
+            v = vec0()
+            while rng.random() < 0.3:   # wrap in (possibly nested) MatrixVectorProducts
+                v = M.matmul(np.array([[gen.const(rng) for _ in range(len(v))] for _ in range(n)], dtype=float), v)
+            return v
         if kind == "lc":
             return V.LinearCombination(np.array([gen.const(rng) for _ in range(n)], dtype=float), vec())
         if kind == "vs":
-            return rng.choice(U.vec_views()).sum()
+            return rng.choice(U.vec_views()).sum() if rng.random() < 0.5 else V.VectorSum(vec())
         if kind == "dot":
             return V.DotProduct(vec(), vec())
         if kind == "qf":
@@ -626,7 +798,7 @@ def check_cases(cases, rep, rng, thorough, T_choices=(400, 0, 3)):
         e = o["e"]
         o["tag"], o["T"] = tag, T
         try:
-            s = Ser(ids).expr(e)
+            s = Ser04(ids).expr(e)
             unsupported = None
         except Unsupported as ex:
             s, unsupported = None, str(ex)
@@ -694,10 +866,12 @@ def run(ctx) -> core.Report:
     thorough = ctx["tier"] == "thorough" or ctx["escalate"]
     rep = core.Report(rule="cell cover of _compute_degree_impl / _compute_degree_iterative / _estimate_tree_depth "
                            "(every operator × operand kind, every exponent kind, every unary function, every vector "
-                           "node × operand kind, vector nodes inside scalar arithmetic), deep chains around the 400 "
+                           "node × operand kind, vector nodes inside scalar arithmetic), every kind of vector-like object (views, "
+                           "matrix rows/columns/diagonals, vector expressions of every element class, bare and wrapped in one or "
+                           "two MatrixVectorProducts) × every vector-operand position, deep chains around the 400 "
                            "switch and the 500 depth cut-off, seeded random trees biased to the polynomial fragment; "
                            "thresholds 400 / 0 / 3 / 10^9; non-trivial = distinct expressions with a finite degree")
-    cases = list(cell_cover(rng)) + chain_cases(rng, thorough)
+    cases = list(cell_cover(rng)) + vector_operand_cover(rng) + chain_cases(rng, thorough)
     n_rand = 40000 if thorough else 4000
     for i in range(n_rand):
         U = gen.Universe(rng)
@@ -716,7 +890,7 @@ def search(ctx, rep):
     import optyx.analysis as A
 
     rng = core.Rng(ctx["seed"] + 104729)
-    pool = [(t, m) for t, m in cell_cover(rng)] + chain_cases(rng, False)
+    pool = [(t, m) for t, m in cell_cover(rng)] + vector_operand_cover(rng) + chain_cases(rng, False)
     for i in range(30000):
         U = gen.Universe(rng)
         depth = rng.randint(1, 6)
